@@ -61,7 +61,7 @@ def main():
                                              'other technique is substituted')})
     m = {
         'version': 1,
-        'setup_cmd': 'cd lean && lake build',
+        'setup_cmd': './setup.sh',
         'hooks': {
             'guard': 'ODL_VERIF',
             'enable': 'no source hooks are needed: checks import odl from /repo (editable install) '
